@@ -187,14 +187,33 @@ def run_history(ctx, g, rng, length):
                 other = (set(arg) if form == "set" else g.CFG(arg) if form == "cfg" else list(arg) if form == "list"
                          else (e for e in arg) if form == "gen" else iter(arg))
                 ks = {key(x) for x in es}
+                # half of the time the operator is written against the ATTRIBUTE (`ir.cfg |= x` assigns the result back to ir.cfg)
+                via_attr = rng.random() < 0.5
+                ctx.count("inplace_via_attribute" if via_attr else "inplace_via_alias")
                 if m == "ior":
-                    cfg |= other; shadow |= ks; it = [7, [env.esx(x) for x in es]]; pool += es
+                    if via_attr:
+                        env.ir.cfg |= other
+                    else:
+                        cfg |= other
+                    shadow |= ks; it = [7, [env.esx(x) for x in es]]; pool += es
                 elif m == "iand":
-                    cfg &= other; shadow &= ks; it = [8, [env.esx(x) for x in es]]
+                    if via_attr:
+                        env.ir.cfg &= other
+                    else:
+                        cfg &= other
+                    shadow &= ks; it = [8, [env.esx(x) for x in es]]
                 elif m == "isub":
-                    cfg -= other; shadow -= ks; it = [9, [env.esx(x) for x in es]]
+                    if via_attr:
+                        env.ir.cfg -= other
+                    else:
+                        cfg -= other
+                    shadow -= ks; it = [9, [env.esx(x) for x in es]]
                 else:
-                    cfg ^= other; shadow ^= ks; it = [10, [env.esx(x) for x in es]]
+                    if via_attr:
+                        env.ir.cfg ^= other
+                    else:
+                        cfg ^= other
+                    shadow ^= ks; it = [10, [env.esx(x) for x in es]]
         except Exception as e:  # noqa: BLE001
             problems.append("%s raised %s" % (m, exc_name(g, e)))
             it = [5]
@@ -208,8 +227,140 @@ def run_history(ctx, g, rng, length):
     return items, impl, problems
 
 
+def exhaustive_small_cfg(ctx, g):
+    """Every operation x argument shape from four base states over a 12-edge universe (2 attached nodes + 1 detached, labels None /
+    all-default / Call), followed by a second operation (so that anything remembered across `clear`, `pop` or an in-place operator
+    shows), with all observations after each: deterministic on every run."""
+    T = g.Edge.Type
+    ir = g.IR()
+    m = g.Module(name="m", ir=ir)
+    bi = g.ByteInterval(size=8, section=g.Section(name="s", module=m))
+    nodes = [g.CodeBlock(size=1, offset=0, byte_interval=bi), g.ProxyBlock(module=m), g.CodeBlock(size=1, offset=4)]
+    labels = [None, g.Edge.Label(T.Branch, False, False), g.Edge.Label(T.Call)]
+    U = [(i, j, k) for i in range(3) for j in range(3) for k in range(3) if (i, j) in ((0, 0), (0, 1), (1, 0), (0, 2))]
+
+    def E(t):
+        return g.Edge(nodes[t[0]], nodes[t[1]], labels[t[2]])
+
+    def key(e):
+        return (nodes.index(e.source), nodes.index(e.target), labels.index(e.label) if e.label in labels else -1)
+    bases = [[], [U[0]], [U[0], U[1], U[2]], [U[0], U[3], U[4], U[6], U[9]]]
+    args = [[], [U[0]], [U[1]], [U[0], U[1]], [U[5], U[5]], [U[3], U[0], U[7]]]
+    forms = {"set": lambda a: set(map(E, a)), "list": lambda a: list(map(E, a)), "gen": lambda a: (E(x) for x in a), "cfg": lambda a: g.CFG(map(E, a))}
+    ops = [("add", x) for x in (U[0], U[1], U[5])] + [("discard", x) for x in (U[0], U[1], U[5])] + [("remove", x) for x in (U[0], U[1], U[5])] + [("pop", None), ("clear", None)]
+    for a in args:
+        for f in forms:
+            ops += [(o, (a, f)) for o in ("update", "ior", "iand", "isub", "ixor")]
+    ops += [(o, "SELF") for o in ("ior", "iand", "isub", "ixor", "update")]
+    n = 0
+
+    def observe(cfg, sh, what):
+        probs = []
+        got = sorted(key(e) for e in cfg)
+        if got != sorted(sh) or len(cfg) != len(sh):
+            probs.append("iteration/len %s (len %d), the set is %s" % (got, len(cfg), sorted(sh)))
+        for t in U:
+            if (E(t) in cfg) != (t in sh):
+                probs.append("membership of %s is %s" % (t, E(t) in cfg))
+                break
+        for i, nd in enumerate(nodes):
+            try:
+                oe, ie = sorted(key(e) for e in cfg.out_edges(nd)), sorted(key(e) for e in cfg.in_edges(nd))
+                og, ig = sorted(key(e) for e in nd.outgoing_edges), sorted(key(e) for e in nd.incoming_edges)
+            except Exception as ex:  # noqa: BLE001
+                probs.append("an adjacency view of node %d raised %s" % (i, type(ex).__name__))
+                break
+            if oe != sorted(t for t in sh if t[0] == i) or ie != sorted(t for t in sh if t[1] == i):
+                probs.append("out/in_edges of node %d are %s / %s" % (i, oe, ie))
+            if i < 2 and (og != oe or ig != ie):
+                probs.append("node %d reports outgoing/incoming %s / %s" % (i, og, ig))
+            if i == 2 and (og or ig):
+                probs.append("a detached node reports edges")
+        if probs:
+            ctx.add("oracle", "cfg-set:small", "after %s: %s" % (what, "; ".join(probs[:3])), {"history": what})
+        return not probs
+
+    def apply(cfg, sh, op, arg):
+        if arg == "SELF":
+            a_impl, a_sh = cfg, set(sh)
+        elif isinstance(arg, tuple) and len(arg) == 2 and isinstance(arg[0], list):
+            a_impl, a_sh = forms[arg[1]](arg[0]), set(arg[0])
+        else:
+            a_impl, a_sh = (E(arg) if arg else None), arg
+        try:
+            if op == "add":
+                cfg.add(a_impl); sh.add(a_sh)
+            elif op == "discard":
+                cfg.discard(a_impl); sh.discard(a_sh)
+            elif op == "remove":
+                want_err = a_sh not in sh
+                sh.discard(a_sh)
+                try:
+                    cfg.remove(a_impl)
+                    if want_err:
+                        return "remove of an absent edge did not raise"
+                except KeyError:
+                    if not want_err:
+                        return "remove of a present edge raised KeyError"
+            elif op == "pop":
+                if sh:
+                    k = key(cfg.pop())
+                    if k not in sh:
+                        return "pop returned an edge that was not in the set"
+                    sh.discard(k)
+                else:
+                    try:
+                        cfg.pop()
+                        return "pop on an empty CFG did not raise"
+                    except KeyError:
+                        pass
+            elif op == "clear":
+                cfg.clear(); sh.clear()
+            elif op == "update":
+                cfg.update(a_impl); sh |= a_sh
+            elif op == "ior":
+                ir.cfg |= a_impl; sh |= a_sh               # written against the attribute: the result is assigned back
+            elif op == "iand":
+                ir.cfg &= a_impl; sh &= a_sh
+            elif op == "isub":
+                ir.cfg -= a_impl; sh -= a_sh
+            else:
+                ir.cfg ^= a_impl; sh ^= a_sh
+        except Exception as ex:  # noqa: BLE001
+            return "raised %s" % type(ex).__name__
+        if cfg is not ir.cfg:
+            return "an in-place operator rebound ir.cfg"
+        return None
+    for base in bases:
+        for op, arg in ops:
+            for op2, arg2 in (("add", U[8]), ("discard", U[0]), ("ixor", ([U[0], U[8]], "list"))):
+                ir.cfg.clear()
+                cfg = ir.cfg
+                sh = set()
+                for t in base:
+                    cfg.add(E(t)); sh.add(t)
+                what = "base %s, %s(%s)" % (base, op, "itself" if arg == "SELF" else arg)
+                n += 1
+                r = apply(cfg, sh, op, arg)
+                if r:
+                    ctx.add("oracle", "cfg-set:small", "%s: %s" % (what, r), {"history": what})
+                    break
+                if not observe(cfg, sh, what):
+                    break
+                what += ", then %s(%s)" % (op2, arg2)
+                r = apply(cfg, sh, op2, arg2)
+                if r:
+                    ctx.add("oracle", "cfg-set:small", "%s: %s" % (what, r), {"history": what})
+                    break
+                if not observe(cfg, sh, what):
+                    break
+    ctx.count("exhaustive_cfg_histories", n)
+    ctx.case("exhaustive-small-cfg", True)
+
+
 def run(ctx):
     g = gtirb_from_repo.load()
+    exhaustive_small_cfg(ctx, g)
     nh, ln = (150, 30) if ctx.quick else (3000, 50)
     hs = []
     for _ in range(nh):
